@@ -89,6 +89,76 @@ def qualifier(inv, case, rec):
     return 'general'
 
 
+def add_clustering(case, rnd):
+    """The same problem with vicinity clustering switched on (thresholds in the range of the generated matrices)."""
+    c = copy.deepcopy(case)
+    c['id'] = case['id'] + 'c'
+    profile = c['problem']['fleet']['profiles'][0]['name']
+    serving = rnd.choice([{'type': 'original', 'parking': 0.0}, {'type': 'original', 'parking': 5.0}, {'type': 'fixed', 'value': 10.0, 'parking': 5.0},
+                          {'type': 'multiplier', 'value': 0.5, 'parking': 0.0}])
+    threshold = {'duration': float(rnd.choice([15, 40, 120])), 'distance': float(rnd.choice([150, 400, 1200]))}
+    if rnd.random() < 0.5:
+        threshold['maxJobsPerCluster'] = rnd.choice([2, 3])
+    c['problem']['plan']['clustering'] = {'type': 'vicinity', 'profile': {'matrix': profile}, 'threshold': threshold,
+                                          'visiting': rnd.choice(['continue', 'return']), 'serving': serving}
+    c['problem']['plan'].pop('relations', None)
+    c['features'] = sorted(set(c.get('features', [])) | {'clustering'})
+    return c
+
+
+def project_accounting(case, solution):
+    """Slim record for JudgeAccounting.tla: who serves what, who is unassigned (no schedule)."""
+    P = case['problem']
+    jobs = [{'id': j['id'], 'kinds': [k2 for k, k2 in (('pickups', 'pickup'), ('deliveries', 'delivery'), ('services', 'service'), ('replacements', 'replacement')) for _ in (j.get(k) or [])]}
+            for j in P['plan']['jobs']]
+    vehicles = [{'id': vid, 'shifts': len(v['shifts'])} for v in P['fleet']['vehicles'] for vid in v['vehicleIds']]
+    tours = [{'vehicle': t['vehicleId'], 'shift': t['shiftIndex'] + 1, 'acts': [{'job': a['jobId'], 'type': a['type']} for s in t['stops'] for a in s['activities']]} for t in solution.get('tours', [])]
+    un = [{'job': u['jobId'], 'nreasons': len(u.get('reasons') or [])} for u in solution.get('unassigned') or []]
+    return {'id': case['id'], 'jobs': jobs, 'vehicles': vehicles, 'tours': tours, 'unassigned': un}
+
+
+def clustering_pass(pid, tier, cases, rnd, verdict):
+    """C02 only: problems with vicinity clustering; the accounting of jobs is judged by JudgeAccounting.tla."""
+    picked = [c for c in cases if rnd.random() < (0.12 if tier == 'quick' else 0.15)]
+    ccases = [add_clustering(c, rnd) for c in picked]
+    out = solve(pid + '-c', ccases, jobs=10) if ccases else {}
+    recs, clustered = [], 0
+    for c in ccases:
+        o = out[c['id']]
+        if o['status'] != 'ok':
+            continue
+        recs.append(project_accounting(c, o['solution']))
+        clustered += any(a.get('commute') for t in o['solution'].get('tours', []) for st in t['stops'] for a in st['activities'])
+    if not recs:
+        return {'clustering_cases': len(ccases), 'judged': 0}
+    cans = []
+    base = next((r for r in recs if r['tours'] and any(a['type'] in ('pickup', 'delivery', 'service', 'replacement') for a in r['tours'][0]['acts'])), None)
+    if base:
+        a = next(a for a in base['tours'][0]['acts'] if a['type'] in ('pickup', 'delivery', 'service', 'replacement'))
+        c = copy.deepcopy(base); c['id'] = 'canary:lost'; c['tours'][0]['acts'] = [x for x in c['tours'][0]['acts'] if x['job'] != a['job']]; cans.append((c, 'PartitionJobs'))
+        c = copy.deepcopy(base); c['id'] = 'canary:both'; c['unassigned'].append({'job': a['job'], 'nreasons': 1}); cans.append((c, 'PartitionJobs'))
+        c = copy.deepcopy(base); c['id'] = 'canary:foreign'; c['tours'][0]['acts'].append({'job': 'ghost', 'type': 'delivery'}); cans.append((c, 'NoForeignIds'))
+        c = copy.deepcopy(base); c['id'] = 'canary:vehicle'; c['tours'][0]['vehicle'] = 'nobody'; cans.append((c, 'TourNamesVehicleShift'))
+    d = os.path.join(common.WORK, pid + '-c')
+    fj = os.path.join(d, 'accounting.ndjson')
+    common.write_ndjson(fj, recs + [c[0] for c in cans])
+    jr = common.tlc('JudgeAccounting', env={'RECS': fj}, workers=1, name=pid + '-acc', timeout=3000, xmx='6g')
+    if jr.distinct != len(recs) + len(cans):
+        raise ToolError('accounting judge walked %d of %d' % (jr.distinct, len(recs) + len(cans)))
+    got = collections.defaultdict(set)
+    for name, _, rid in jr.fails:
+        got[rid].add(name)
+    for c, expect in cans:
+        if expect not in got[c['id']]:
+            raise ToolError('accounting judge vacuity: %s not rejected by %s' % (c['id'], expect))
+    by_id = {c['id']: c for c in ccases}
+    for name, _, rid in jr.fails:
+        if rid.startswith('canary:'):
+            continue
+        verdict.add('%s/Clustered%s/general' % (pid, name), 'record %s (vicinity clustering) violates %s' % (rid, name), {'case': by_id[rid], 'solution': out[rid]['solution'], 'invariant': name})
+    return {'clustering_cases': len(ccases), 'judged': len(recs), 'solutions_with_clustered_stops': clustered, 'status': dict(collections.Counter(o['status'] for o in out.values()))}
+
+
 def canaries(rec):
     """Single-field corruptions of an accepted record; each must be rejected by the named invariant."""
     out = []
@@ -228,6 +298,7 @@ def run(pid, tier):
         key = '%s/%s/%s' % (pid, name, qualifier(name, c, recs_by_id[rid]))
         verdict.add(key, 'record %s violates %s' % (rid, name),
                     {'case': c, 'solution': outcomes[rid]['solution'], 'invariant': name})
+    clustering = clustering_pass(pid, tier, cases, rnd, verdict) if pid == 'C02' else None
     rc = verdict.finish()
 
     feats = collections.Counter(f for c in cases_by_id.values() for f in c.get('features', []))
@@ -243,7 +314,7 @@ def run(pid, tier):
                      'unassigned': [u['job'] for u in sample['unassigned']], 'config': cases_by_id[sample['id']]['config']}],
         'invariants_judged': sorted(mine), 'invariants_failed_of_other_properties': dict(others),
         'solver_status': dict(status), 'not_ok_runs_not_judged_here': not_ok[:5], 'unsupported_projection': dict(unsupported),
-        'relation_cases': len(rel_cases), 'seeded_cases': len(init_cases), 'feature_counts': dict(feats),
+        'relation_cases': len(rel_cases), 'seeded_cases': len(init_cases), 'vicinity_clustering_pass': clustering, 'feature_counts': dict(feats),
         'canaries': {'applied': canary_total, 'rejected': canary_rejected},
         'known_finding_hits': {k: len(v) for k, v in verdict.known_hits.items()},
         'tlc_wall_s': round(res.wall, 1),
